@@ -12,7 +12,7 @@ TRUSTED = ["segment-level models of .c2pa/PNG/JPEG/GIF/RIFF handlers (coq/Model/
 ASSUMPTIONS = ["admissible stores: non-empty; JPEG: at least 21 bytes with bytes 16..20 = 'c2pa' (the JUMBF description UUID); "
                "JPEG XL: the full 38-byte C2PA superbox header with LBox = length",
                "admissible assets: parse successfully; PNG/GIF: at most one existing C2PA chunk/block; JPEG: ends in SOS with scan data, "
-               "no foreign APP11 segment longer than 16 bytes that is shorter than 28 bytes or uses box instance 0x0211; RIFF: no nested chunk with id RIFF",
+               "no foreign APP11 segment longer than 16 bytes that is shorter than 28 bytes, or that uses box instance 0x0211 with a packet sequence number above 1; RIFF: no nested chunk with id RIFF",
                "64-bit usize; debug-profile harness"]
 
 
@@ -38,8 +38,8 @@ def gen_cases(ctx):
     # A. every store length 28..300, every modelled format, rotating through the asset variants
     for fam in FIVE:
         for n in range(28, 301):
-            if quick and fam != "jpeg" and n % 2 and not (250 <= n <= 260):
-                continue                          # quick: all lengths for JPEG (header rule), every other length elsewhere
+            if quick and n % (2 if fam == "jpeg" else 3) and not (252 <= n <= 258) and n > 40:
+                continue                          # quick: every 2nd (JPEG) / 3rd length, all lengths 28..40 and around 255
             fmt, name, a = tiny(fam, n)
             cases.append({"fmt": fmt, "name": name, "asset": {"hex": a.hex()}, "ops": [{"op": "w", "s": {"gen": [n, n % 7]}}], "grp": "len"})
     # short / inadmissible stores (the header rule for JPEG): correspondence, oracle classifies
@@ -68,7 +68,7 @@ def gen_cases(ctx):
         fmt, name, a = tiny("gif", n)
         cases.append({"fmt": fmt, "name": name, "asset": {"hex": a.hex()}, "ops": [{"op": "w", "s": {"gen": [n, 2]}}], "grp": "boundary"})
     # C. operation sequences of length 1..4 over all variants
-    nseq = 250 if quick else 2500
+    nseq = 150 if quick else 2500
     for i in range(nseq):
         fam = FIVE[i % 5]
         fmt, name, a = tiny(fam, rng.randrange(100))
@@ -217,7 +217,7 @@ def run(ctx):
         "model_compared": nmodel,
         "level_by_format": {"c2pa": "full", "png": "full", "jpeg": "full (bytes: parser inverts encoder on well-formed segment lists)",
                             "gif": "full (segment level; byte decoder by correspondence)",
-                            "riff": "full for write/read/replace, remove refuted (F-RIFF-REMOVE)",
+                            "riff": "full (segment level; byte decoder by correspondence)",
                             "bmff": "partial: oracle on fixtures only", "tiff": "partial: oracle on fixtures only",
                             "svg": "partial: oracle on fixtures only", "mp3": "partial: oracle on fixtures only",
                             "flac": "partial: oracle on fixtures only", "jxl": "partial: oracle on fixtures only"},
